@@ -179,7 +179,7 @@ class SpecMap:
             skeep = z3.BoolVal(True) if self.keep is None else z3.substitute(self.keep, (self.var, v), *psub)
             facts = [V.vcontains(xs, v)]
             ent = path.ctx.__dict__.get("elem_shapes", {}).get(xs.get_id()) or \
-                path.ctx.__dict__.get("elem_shapes", {}).get(z3.simplify(m["xs"]).get_id())
+                path.ctx.__dict__.get("elem_shapes", {}).get(z3.simplify(m["xs"]).get_id()) or V.elem_shape_of(path.ctx, xs)
             if ent is not None:
                 facts.append(ent(v))
             site = m["site"].split(":", 1)[1] if ":" in m["site"] else m["site"]
